@@ -416,6 +416,28 @@ class Inliner:
             return None
         return r
 
+    def apply_ret(self, e):
+        """the value RETURNED by the call that produced ('after', site, callee, base, args, k), in the caller's terms
+        (the callee's return expression over its entry state, with the lent object as it was before the call)"""
+        callee, base, args, k = e[2], e[3], e[4], e[5]
+        if callee not in self.facts.bodies:
+            return None
+        s = self.an.summary(callee)
+        if s is None or s.cfg.loops() or s.ret is None:
+            return None
+        a2 = []
+        for i, a in enumerate(args):
+            if i == k - 1:
+                a2.append(('constref', base))
+            elif a[0] == 'ref':
+                return None
+            else:
+                a2.append(a)
+        r = self.subst(s.ret, tuple(a2))
+        if any(x[0] in ('unk', 'phi', 'loop') for x in walk(r)):
+            return None
+        return r
+
     # ------------------------------------------------------------------ finite maps
     def finmap(self, key, domains):
         """specialise function `key` on constant arguments.
